@@ -911,7 +911,7 @@ pub fn c18(ctx: &mut Ctx) {
         }
     }
     // isomorphism = structural equality
-    let small = enum_upto(4, 1);
+    let small = enum_upto(if ctx.thorough { 6 } else { 5 }, 1);
     for a in &small {
         for b in &small {
             let line = format!("iso {} {}", s(a), s(b));
